@@ -143,7 +143,12 @@ def year_sites(F, rep, rule="R1", only_crate=None):
         tb = None
         has_ymd = any(t["callee"].endswith("NaiveDate::from_ymd_opt") for _, t in b.calls())
         has_md = any(parse_callee(t["callee"])[2] in ("month", "day") and "Datelike" in t["callee"] for _, t in b.calls())
-        if not (has_ymd or has_md):
+        has_rng = False
+        if not has_ymd and b.crate == "cgt_core" and any(s_["rv"]["k"] == "closure" for _, _, s_ in b.assigns()) and \
+                any(t["callee"] in F.bodies and any(u["callee"].endswith("NaiveDate::from_ymd_opt") for _, u in F.bodies[t["callee"]].calls())
+                    for _, t in b.calls()):
+            has_rng = True   # dates built by a helper and captured by a filter closure
+        if not (has_ymd or has_md or has_rng):
             continue
         tb = Terms(F, b, inline_depth=0)
         # (i) derivation sites: a block computing year − 1
@@ -163,7 +168,7 @@ def year_sites(F, rep, rule="R1", only_crate=None):
                    f"tax-year boundary predicate [{descr}] differs from 'before 6 April' at (month, day) = {bad[:4]}…",
                    b.loc(), key=f"{rule}:{b.short}:boundary")
         # (ii) range-filter sites: two from_ymd_opt with constants and closures comparing against them
-        if has_ymd and not pys and only_crate is None:
+        if (has_ymd or has_rng) and not pys and only_crate is None:
             ymds = []
             for i, t in b.calls():
                 if t["callee"].endswith("NaiveDate::from_ymd_opt"):
@@ -181,6 +186,7 @@ def year_sites(F, rep, rule="R1", only_crate=None):
                     (lop, ly, lm, ld), (hop, hy, hm, hd) = lo[0], hi[0]
                     # year terms: hi year must be lo year + 1
                     yr_ok = _is_plus_one(hy, ly)
+                    # an exclusive upper bound `< ymd(Y+1, 4, 6)` is the same set as `<= ymd(Y+1, 4, 5)`
                     in_cur = lambda m, d: CMP[lop]((m, d), (lm, ld))
                     in_prev = lambda m, d: CMP[hop]((m, d), (hm, hd))
                     bad = [(m, d) for (m, d) in GRID if in_cur(m, d) == in_prev(m, d) or in_prev(m, d) != before_6_april(m, d)]
@@ -214,9 +220,10 @@ def _is_plus_one(hy, ly):
 
 
 def _closure_date_cmps(F, b, tb):
-    """closures created in b that compare a date with captured from_ymd_opt values ->
-    list of (op, year_term, M, D) normalised as `date op bound`"""
+    """closures created in b that compare a date with captured from_ymd_opt values (directly, through a helper that
+    builds the date, or through a Range/RangeInclusive::contains) -> list of (op, year_term, M, D) as `date op bound`"""
     out = []
+    tbi = Terms(F, b, inline_depth=2)
     for i, si, s in b.assigns():
         rv = s["rv"]
         if rv["k"] != "closure":
@@ -224,37 +231,47 @@ def _closure_date_cmps(F, b, tb):
         cb = F.bodies.get(rv["id"])
         if cb is None:
             continue
-        caps = [tb.operand(o) for o in rv["ops"]]
+        caps = [tbi.operand(o) for o in rv["ops"]]
+        if not any(_ymd_consts(c) for c in caps):
+            continue
         ct = Terms(F, cb, inline_depth=0)
-        for bi in cb.reachable():
-            t = cb.term(bi)
-            if t["k"] != "switch":
-                continue
-            c = ct.operand(t["discr"])
-            if isinstance(c, tuple) and c and c[0] == "cmp":
-                op, x, y = c[1], c[2], c[3]
-                ux, uy = _upvar(x), _upvar(y)
-                if uy is not None and uy < len(caps):
-                    ymd = _ymd_consts(caps[uy])
-                    if ymd:
-                        out.append((op,) + ymd)
-                elif ux is not None and ux < len(caps):
-                    ymd = _ymd_consts(caps[ux])
-                    if ymd:
-                        out.append((FLIP[op],) + ymd)
-        # the closure's final comparison may be a direct return (last `&&` operand)
-        r = ct.local(0)
-        for x in subterms(r):
-            if isinstance(x, tuple) and x and x[0] == "cmp":
-                op, p, q = x[1], x[2], x[3]
-                uq, up = _upvar(q), _upvar(p)
-                cand = None
-                if uq is not None and uq < len(caps) and _ymd_consts(caps[uq]):
-                    cand = (op,) + _ymd_consts(caps[uq])
-                elif up is not None and up < len(caps) and _ymd_consts(caps[up]):
-                    cand = (FLIP[op],) + _ymd_consts(caps[up])
-                if cand and cand not in out:
-                    out.append(cand)
+
+        def bound(t):
+            u = _upvar(t)
+            if u is not None and u < len(caps):
+                return _ymd_consts(caps[u])
+            return None
+        terms = [ct.operand(cb.term(bi)["discr"]) for bi in cb.reachable() if cb.term(bi)["k"] == "switch"] + [ct.local(0)]
+        for c in terms:
+            for x in subterms(c):
+                if not (isinstance(x, tuple) and x):
+                    continue
+                if x[0] == "cmp":
+                    op, p, q = x[1], x[2], x[3]
+                    bq, bp = bound(q), bound(p)
+                    cand = None
+                    if bq and not bp:
+                        cand = (op,) + bq
+                    elif bp and not bq:
+                        cand = (FLIP[op],) + bp
+                    if cand and cand not in out:
+                        out.append(cand)
+                if x[0] == "call" and parse_callee(x[1])[2] == "contains" and len(x[2]) == 2:
+                    rng = x[2][0]
+                    lo = hi = None
+                    incl = True
+                    if isinstance(rng, tuple) and rng and rng[0] == "call" and "RangeInclusive" in rng[1] and len(rng[2]) == 2:
+                        lo, hi = bound(rng[2][0]), bound(rng[2][1])
+                    elif isinstance(rng, tuple) and rng and rng[0] == "agg" and rng[1].endswith("ops::range::Range"):
+                        fs = dict(rng[3])
+                        lo, hi, incl = bound(fs.get("start")), bound(fs.get("end")), False
+                    elif isinstance(rng, tuple) and rng and rng[0] == "agg" and rng[1].endswith("RangeInclusive"):
+                        fs = dict(rng[3])
+                        lo, hi = bound(fs.get("start")), bound(fs.get("end"))
+                    if lo and hi:
+                        for cand in (("Ge",) + lo, ("Le" if incl else "Lt",) + hi):
+                            if cand not in out:
+                                out.append(cand)
     return out
 
 
@@ -372,7 +389,12 @@ def provenance(F, rep):
                    key=f"R4:calculate:{u['callee'].split('::')[-1]}:input")
 
 
+F_RET = {}
+
+
 def sibling_builders(F, rep):
+    F_RET.clear()
+    F_RET.update({b.id: b.ret for b in F.bodies.values()})
     aggs = []
     for b in F.bodies.values():
         if F.is_derive(b) or b.crate != "cgt_core":
@@ -448,6 +470,9 @@ def _producer_sig(t):
         if "TaxPeriod::" in c:
             continue  # how the year key is obtained is checked separately (same-year rule)
         if c.startswith("cgt_") or (st or "").startswith("cgt_"):
+            # only producers of report content count; date/boundary helpers are covered by R1
+            if "NaiveDate" in (F_RET.get(c) or "") or "TaxPeriod" in (F_RET.get(c) or ""):
+                continue
             out.add(c.split("::", 1)[-1])
         elif m in ("get", "unwrap_or_default", "abs", "sum"):
             out.add(m)
